@@ -132,6 +132,7 @@ type Result struct {
 // ---------------------------------------------------------------- state
 
 var (
+	running                     bool
 	exited, budgetHit, returned bool
 	exitCode                    int
 )
@@ -209,10 +210,12 @@ func Run(c Config, main func()) (res Result) {
 				record("PANIC", res.Panic, 0)
 			}
 		}()
+		running = true
 		main()
 		returned = true
 	}()
 	<-done
+	running = false
 	res.Exit = exitCode
 	res.Returned = returned
 	res.Budget = budgetHit
@@ -444,6 +447,9 @@ func Sleep(d time.Duration) {
 
 // Tick is inserted at the entry of every function and loop body.
 func Tick() {
+	if !running {
+		return // package initialisers / resets run outside a simulated run
+	}
 	ticks++
 	if gcIdx < len(cfg.GCTicks) && ticks >= cfg.GCTicks[gcIdx] {
 		gcIdx++
